@@ -287,6 +287,13 @@ class FakeSock(object):
       net.connect_log.append((net.lp.now(), c.addr, c.id, 'refused'))
       c.mark_fault()
       raise _err(errno.ECONNREFUSED, 'Connection refused')
+    if fk == 'timeout-noerrno':
+      # what socket.create_connection raises when the connect times out: an OSError subclass whose errno is None
+      import socket as _socket
+      c.state = 'refused'
+      net.connect_log.append((net.lp.now(), c.addr, c.id, 'refused'))
+      c.mark_fault()
+      raise _socket.timeout('timed out')
     if fk in ('silence', 'eof'):
       c.stalled = True
     ep = net.eps.get(c.addr)
